@@ -161,7 +161,6 @@ func evalSize(e ast.Expr, es int64) *big.Int {
 	return ex.Eval(e, nil, 0)
 }
 
-
 // layout extracts, structurally, which FIELD of the point goes to which byte OFFSET of the encoding
 // (review 4-C06 #3: the earlier facts pinned the names of local variables, so a harmless rename turned
 // C06/C11 red and a swap behind a renamed temporary would not have been read as one).
